@@ -8,6 +8,10 @@
 #define PARSEC_ATOMIC_H_HAS_BEEN_INCLUDED
 
 #include "parsec/parsec_config.h"
+#if defined(ICLDISCO_PARSEC_VERIF)
+#include <stddef.h>
+#include "parsec/sys/verif_hooks.h"
+#endif
 
 BEGIN_C_DECLS
 
@@ -258,12 +262,18 @@ ATOMIC_STATIC_INLINE
 void parsec_atomic_lock( parsec_atomic_lock_t* atomic_lock )
 {
     while( !parsec_atomic_cas_int32( atomic_lock, 0, 1) )
+#if defined(ICLDISCO_PARSEC_VERIF)
+        PARSEC_VERIF_SPIN()
+#endif
         /* nothing */;
 }
 #  define PARSEC_ATOMIC_HAS_ATOMIC_UNLOCK
 ATOMIC_STATIC_INLINE
 void parsec_atomic_unlock( parsec_atomic_lock_t* atomic_lock )
 {
+#if defined(ICLDISCO_PARSEC_VERIF)
+    PARSEC_VERIF_YIELD(PARSEC_VERIF_K_UNLOCK, atomic_lock);
+#endif
     parsec_mfence();
     *atomic_lock = 0;
 }
